@@ -458,9 +458,27 @@ def _do_copy(rec, M, rng, n):
         if kind == "path":
             if rng.random() < 0.6:
                 _touch(p)
+            overlong = n >= 2 and rng.random() < 0.2
+            if overlong:
+                # a path holding more frames than its own limit (the limit
+                # was re-assigned after the frames were added, as
+                # load_paths_from_disk does with the configured maxlength)
+                p.maxlen = rng.randrange(0, n)
+                case["maxlen_after"] = p.maxlen
+                rec.hit("copy_of_path_longer_than_its_limit")
             c = p.copy()
             rec.reach("copy_frames")
-            if [_snap(x) for x in c.phasepoints] != src:
+            got_c = [_snap(x) for x in c.phasepoints]
+            if overlong:
+                # the property does not say whether such a copy is cut at
+                # the limit; whatever it holds must be a prefix of the
+                # source - and independent of it (checked below)
+                if got_c != src[:len(got_c)]:
+                    rec.bad("copy-frames", "Path.copy of an over-long path "
+                            "is not a prefix of the source frames", case)
+                if len(got_c) < n:
+                    rec.hit("copy_of_overlong_path_cut_at_limit")
+            elif got_c != src:
                 rec.bad("copy-frames", "Path.copy does not hold the same "
                         "frames in the same order", case)
             _derived(rec, c, case, "copied path")
